@@ -49,6 +49,66 @@ _REC = {"ev": None}
 _HOOKED = {}
 
 
+DET = {"label": None, "done_after": None}
+DET_OFF = "<off>"
+
+
+def install_detector():
+    """a stand-in for the optional chardet package (not installed here), registered in this process only: its verdict
+    is an input the harness controls, so the detector step of determineEncoding becomes reachable"""
+    import sys
+    import types
+    if isinstance(sys.modules.get("chardet"), types.ModuleType) and getattr(sys.modules["chardet"], "_c06", False):
+        return
+
+    class UniversalDetector(object):
+        def __init__(self, *a, **k):
+            self.done = False
+            self.result = {"encoding": None, "confidence": 0.0}
+            self._feeds = 0
+
+        def reset(self):
+            self.__init__()
+
+        def feed(self, data):
+            assert isinstance(data, bytes)
+            self._feeds += 1
+            if DET["done_after"] is not None and self._feeds >= DET["done_after"]:
+                self.done = True
+
+        def close(self):
+            self.result = {"encoding": DET["label"], "confidence": 0.5}
+            return self.result
+
+    pkg = types.ModuleType("chardet")
+    pkg.__path__ = []
+    pkg._c06 = True
+    sub = types.ModuleType("chardet.universaldetector")
+    sub.UniversalDetector = UniversalDetector
+    pkg.universaldetector = sub
+    sys.modules["chardet"] = pkg
+    _HOOKED["chardet"] = (pkg, sub)
+
+
+def set_detector(det, data):
+    """det: DET_OFF | None | label.  Returns the useChardet argument.  "off" is realised in both ways: useChardet=False
+    with the package importable, or useChardet=True (also by default) with the import failing"""
+    import sys
+    install_detector()
+    pkg, sub = _HOOKED["chardet"]
+    h = zlib.crc32(data[:64]) + len(data)
+    if det == DET_OFF:
+        if h % 2:
+            sys.modules["chardet.universaldetector"] = sub
+            return {"useChardet": False}
+        sys.modules["chardet.universaldetector"] = None          # import raises ImportError
+        return {} if h % 4 == 0 else {"useChardet": True}
+    sys.modules["chardet.universaldetector"] = sub
+    DET["label"] = det
+    DET["done_after"] = [None, 1, 3][h % 3]
+    return {} if h % 2 else {"useChardet": True}
+
+
 def install_hooks():
     """call-through wrappers (the wrapped originals always run) around InHeadPhase.startTagMeta and
     HTMLBinaryInputStream.changeEncoding, installed in this process only"""
@@ -175,16 +235,20 @@ def observe(data, labels, mode="bytes", scripting=False, ep=("parse", None)):
     from html5lib._inputstream import HTMLBinaryInputStream
     install_hooks()
     kw = kw_of(labels)
+    det = labels.get("c", DET_OFF)
+    ckw = set_detector(det, data)
     skw = {"scripting": True} if scripting else {}
     skw["ep"] = ep = (ep[0], ep[1])
     tr = {"k": "parse", "data": list(data[:TRACE_DATA_MAX]), "src": mode, "raised": False, "scripting": scripting,
           "ep": ep[0], "container": cps(ep[1]),
           "kw": {k: (cps(labels.get(k)) if k in labels else cps("windows-1252" if k == "d" else None)) for k, _ in KW}}
+    tr["kw"]["det"] = {"on": det != DET_OFF, "label": cps(None if det == DET_OFF else det)}
+    kw.update(ckw)
     try:
-        s = HTMLBinaryInputStream(source(data, mode), useChardet=False, **kw)
+        s = HTMLBinaryInputStream(source(data, mode), **kw)
     except AssertionError:
         try:
-            parse_tree(source(data, mode), useChardet=False, **kw, **skw)
+            parse_tree(source(data, mode), **kw, **skw)
         except AssertionError:
             tr["raised"] = True
             return tr
@@ -193,7 +257,7 @@ def observe(data, labels, mode="bytes", scripting=False, ep=("parse", None)):
     _REC["ev"] = []
     err = None
     try:
-        p, doc = parse_tree(source(data, mode), useChardet=False, **kw, **skw)
+        p, doc = parse_tree(source(data, mode), **kw, **skw)
     except Exception as e:        # noqa
         err = e
     finally:
@@ -207,7 +271,7 @@ def observe(data, labels, mode="bytes", scripting=False, ep=("parse", None)):
         except Exception as e2:   # noqa
             if type(e2) is type(err):
                 return None
-        return {"error": repr(err), "data": list(data[:TRACE_DATA_MAX]), "labels": {k: labels.get(k) for k in labels}}
+        return {"error": repr(err), "data": list(data[:TRACE_DATA_MAX]), "labels": {k: labels.get(k) for k in labels}, "src": mode}
     stream = p.tokenizer.stream
     tr["ev"] = ev
     tr["e"] = p.documentEncoding
@@ -244,15 +308,15 @@ def cfg_prescan(kind, maxlen, pads, listed, export=True, check=True):
             % (kind, maxlen, S(pads), "TRUE" if export else "FALSE", "TRUE" if check else "FALSE", S(listed)))
 
 
-def cfg_encoding(mode, labels, decl_labels, forms, boms, maxwin, maxdecl, listed, export, check, edge=(False,)):
+def cfg_encoding(mode, labels, decl_labels, forms, boms, maxwin, maxdecl, listed, export, check, edge=(False,), detectors=("off",)):
     return ("INIT Init\nNEXT Next\nCHECK_DEADLOCK FALSE\nINVARIANT ThmPrecedence\nINVARIANT ThmReported\n"
             "INVARIANT ThmLateMeta\nINVARIANT ThmRestartFresh\nINVARIANT ThmNoDeclLeft\nINVARIANT ThmRestartOnce\nINVARIANT ThmExport\nPROPERTY ThmCertainStable\n"
             "CONSTANT Mode = \"%s\"\nCONSTANT Labels = %s\nCONSTANT DeclLabels = %s\nCONSTANT Forms = %s\n"
             "CONSTANT BomKinds = %s\nCONSTANT MaxWin = %d\nCONSTANT MaxDecl = %d\nCONSTANT Export = %s\n"
-            "CONSTANT CheckProperty = %s\nCONSTANT KnownDefects = %s\nCONSTANT Edge = {%s}\n"
+            "CONSTANT CheckProperty = %s\nCONSTANT KnownDefects = %s\nCONSTANT Edge = {%s}\nCONSTANT Detectors = %s\n"
             % (mode, S(labels), S(decl_labels), S(forms), S(boms), maxwin, maxdecl,
                "TRUE" if export else "FALSE", "TRUE" if check else "FALSE", S(listed),
-               ",".join("TRUE" if e else "FALSE" for e in edge)))
+               ",".join("TRUE" if e else "FALSE" for e in edge), S(list(detectors))))
 
 
 # ---------------------------------------------------------------------------------------------------------------
@@ -289,6 +353,15 @@ def concretize(rec, rng):
                 labels[k] = rng.choice(["totally-bogus", "", "utf-7"])
         else:
             labels[k] = pick(rng, lid)
+    lid = rec["args"].get("c", "off")
+    if lid == "unset":
+        labels["c"] = rng.choice([DET_OFF, DET_OFF, None, "KOI8-R", "CP949", "utf-16", "ascii"])
+    elif lid == "off":
+        labels["c"] = DET_OFF
+    elif lid == "none":
+        labels["c"] = rng.choice([None, "CP949", "MacRoman", "EUC-TW", "UTF-32"])
+    else:
+        labels["c"] = pick(rng, lid)
     decls = rec["decls"]
     nwin = rec["nwin"]
     if nwin < 0:
@@ -323,8 +396,11 @@ def check_vector(item):
     rng = random.Random(seed)
     data, labels = concretize(rec, rng)
     ep = item[3] if len(item) > 3 else ("parse", None)
-    tr = observe(data, labels, ep=ep)
     case = {"kind": "vector", "rec": rec, "data": list(data), "labels": labels, "ep": list(ep)}
+    try:
+        tr = observe(data, labels, ep=ep)
+    except Exception as e:      # noqa: the code under test must not raise on byte input
+        return ("the real code raised on byte input: %r" % e, case), None
     if tr is None or "error" in tr:
         return ("parse raised %s" % (tr or {}).get("error"), case), None
     exp0 = (rec["e0"], rec["c0"], min(rec["from0"], len(data)))
@@ -357,7 +433,10 @@ def check_prescan(rec):
             return ("content extraction %r, model %r" % (got, rec["fai"]), {"kind": "extract", "v": list(b)})
         return None
     data = prescan_bytes(rec)
-    s = HTMLBinaryInputStream(data, useChardet=False, default_encoding="none-such")
+    try:
+        s = HTMLBinaryInputStream(data, useChardet=False, default_encoding="none-such")
+    except Exception as e:      # noqa: the code under test must not raise on byte input
+        return ("the real code raised on byte input: %r" % e, {"kind": "bytes", "data": list(data), "labels": {}})
     exp = rec["fai"][0]
     exp = ("windows-1252" if exp == "none" else exp, "tentative", 0)
     got = (s.charEncoding[0].name, s.charEncoding[1], s.rawStream.tell())
@@ -408,6 +487,9 @@ def rnd_labels(rng):
         if r < 0.55:
             continue
         labels[k] = None if r < 0.62 else rnd_label(rng)
+    if rng.random() < 0.35:         # the optional detector is importable and says ...
+        labels["c"] = rng.choice([None, None, "CP949", "MacRoman", "EUC-TW", "UTF-32", "KOI8-R", "ascii", "utf-16", "ISO-8859-2",
+                                  " utf-8", "SHIFT_JIS", rnd_label(rng)])
     return labels
 
 
@@ -599,6 +681,48 @@ FIXED = [
 ]
 
 
+def distinguishing_body():
+    """bytes that tell an encoding from its near namesakes: every high single byte, and lead/trail pairs over the whole
+    lead range with trail bytes from each trail region (vendor-extension rows included); no markup bytes"""
+    out = bytearray(b"<p>")
+    out += bytes(range(0x80, 0x100)) + b" "
+    trails = [0x40, 0x41, 0x5c, 0x63, 0x7e, 0x80, 0x8a, 0xa1, 0xb0, 0xd6, 0xfc, 0xfe]
+    for lead in range(0x81, 0xff):
+        for t in trails:
+            out += bytes((lead, t))
+        out += b" "
+    out += b"\x8e\xa1 \x8f\xa2\xaf \x81\x30\x81\x30 \x1b$B0! \x1b(B ~{ ~} </p>"
+    return bytes(out)
+
+
+def encoding_sweep():
+    """every encoding of the label table (webencodings = the independent oracle) selected through EACH precedence source,
+    and every label of the table through one source (round robin), on a body that distinguishes the decoders"""
+    import webencodings
+    body = distinguishing_body()
+    late = b"<!--" + b"x" * 1100 + b"-->"
+    names = sorted(set(webencodings.LABELS.values()))
+    sources = ["o", "t", "meta", "p", "l", "c", "d", "late"]
+
+    def job(label, src, i):
+        ep = ("fragment", "div") if i % 5 == 4 else ("parse", None)
+        mode = ["bytes", "bytesio", "pipe"][i % 3]
+        if src == "meta":
+            form = (b"<meta charset=%s>" if i % 2 else b'<meta http-equiv="Content-Type" content="text/html; charset=%s">') % label.encode()
+            return (form + body, {}, mode, False, ep)
+        if src == "late":
+            return (late + b"<meta charset=" + label.encode() + b">" + body, {}, mode, False, ep)
+        return (body, {src: label}, mode, False, ep)
+
+    out = []
+    for i, name in enumerate(names):
+        for j, src in enumerate(sources):
+            out.append(job(name, src, i + j))
+    for i, label in enumerate(sorted(webencodings.LABELS)):
+        out.append(job(label.upper() if i % 4 == 0 else label, sources[i % len(sources)], i))
+    return out
+
+
 CONTAINERS = ["div", "td", "head", "body", "table", "select", "title", "textarea", "script", "noscript", "svg", "html", "p"]
 
 
@@ -727,16 +851,23 @@ def run(ctx):
     enc_edge = dict(labels=["none", "A"], decl_labels=["A", "B", "bogus"], forms=["charset", "pragma"], boms=["none", "utf-8"],
                     maxwin=1, maxdecl=2)
     ctx.constants["MC_Encoding edge"] = dict(enc_edge, Edge=[True], chunk=chunk_size(), entry_points=["parse", "fragment div", "fragment td"])
-    for tag, mode, c, edge, eps in (("lazy", "lazy", enc_lazy, (False,), [("parse", None)]),
-                                    ("product", "product", enc_prod, (False,), [("parse", None)]),
-                                    ("edge", "lazy", enc_edge, (True,), [("parse", None), ("fragment", "div"), ("fragment", "td")])):
+    # "detect": the optional detector is consulted (stand-in module) and gives no / an unknown / a known / a UTF-16 verdict
+    enc_det = dict(labels=["none", "A", "bogus"], decl_labels=["B", "bogus"], forms=["charset"], boms=["none", "utf-32le"],
+                   maxwin=1, maxdecl=1)
+    dets = ["off", "none", "bogus", "A", "utf16"]
+    ctx.constants["MC_Encoding detect"] = dict(enc_det, Detectors=dets)
+    for tag, mode, c, edge, eps, detectors in (
+            ("lazy", "lazy", enc_lazy, (False,), [("parse", None)], ("off",)),
+            ("product", "product", enc_prod, (False,), [("parse", None)], ("off",)),
+            ("detect", "lazy", enc_det, (False,), [("parse", None)], dets),
+            ("edge", "lazy", enc_edge, (True,), [("parse", None), ("fragment", "div"), ("fragment", "td")], ("off",))):
         r = ctx.tlc("MC_Encoding", cfg_encoding(mode, c["labels"], c["decl_labels"], c["forms"], c["boms"], c["maxwin"], c["maxdecl"],
-                                                [], False, True, edge), "mc-encoding-intended-" + tag, keep_records=False)
+                                                [], False, True, edge, detectors), "mc-encoding-intended-" + tag, keep_records=False)
         if r.violated:
             ctx.violation("theorem %s fails on the intended encoding lifecycle (%s)" % (r.violated, tag), {"tlc": r.stdout_path})
             return
         r = ctx.tlc("MC_Encoding", cfg_encoding(mode, c["labels"], c["decl_labels"], c["forms"], c["boms"], c["maxwin"], c["maxdecl"],
-                                                listed, True, False, edge), "mc-encoding-faithful-" + tag, keep_records=False)
+                                                listed, True, False, edge, detectors), "mc-encoding-faithful-" + tag, keep_records=False)
         if r.violated:
             ctx.violation("structural theorem %s fails on the code-faithful encoding lifecycle (%s)" % (r.violated, tag), {"tlc": r.stdout_path})
             return
@@ -744,7 +875,7 @@ def run(ctx):
         keyed = sorted((json.dumps(x, sort_keys=True), x) for x in recs)
         keyed = [(k, x, ep) for k, x in keyed for ep in eps]
         recs = [x for _, x, _ in keyed]
-        step = 1 if tag == "edge" else max(1, len(recs) // (400 if q else 6000))
+        step = 1 if tag in ("edge", "detect") else max(1, len(recs) // (400 if q else 6000))
         if tag == "edge" and q:
             keyed = keyed[::max(1, len(keyed) // 240)]      # long documents: a deterministic sample in the quick tier
             recs = [x for _, x, _ in keyed]
@@ -786,6 +917,7 @@ def run(ctx):
     jobs.append((b"<head><!--" + b"x" * 1100 + b"--><noscript><meta charset=utf-8></noscript><title>\xc3\xa9", {}, "bytes", False))
     jobs.append((b"<head><!--" + b"x" * 1100 + b"--><noscript><meta charset=utf-8></noscript><title>\xc3\xa9", {"l": "koi8-r"}, "bytes", False))
     jobs.extend(boundary_docs(ctx, q))
+    jobs.extend(encoding_sweep())
     for b in corpus_docs(ctx, 150 if q else 1500):
         jobs.append((b, rnd_labels(ctx.rng) if ctx.rng.random() < 0.6 else {}))
     for _ in range(1500 if q else 22000):
@@ -874,6 +1006,8 @@ def replay(case):
             for k, _ in KW:
                 v = t["kw"][k]
                 labels[k] = None if v == [-1] else "".join(chr(x) for x in v)
+            d = t["kw"].get("det") or {"on": False}
+            labels["c"] = DET_OFF if not d["on"] else (None if d["label"] == [-1] else "".join(chr(x) for x in d["label"]))
             tr = _obs_item((bytes(t["data"]), labels, t.get("src", "bytes"), t.get("scripting", False)))
     else:
         print("replay data:", {k: v for k, v in c.items()})
